@@ -122,6 +122,7 @@ impl OperationControl for Repeat {
                     positions,
                     bound,
                     self.min,
+                    position,
                 ),
             )))
         } else {
@@ -169,6 +170,7 @@ struct GreedyRepeatIterator<'a> {
     iterators: Vec<Box<dyn Iterator<Item = usize> + 'a>>,
     positions: Vec<usize>,
     bound: usize,
+    start: usize,
 }
 
 impl<'a> GreedyRepeatIterator<'a> {
@@ -179,6 +181,7 @@ impl<'a> GreedyRepeatIterator<'a> {
         positions: Vec<usize>,
         bound: usize,
         min: usize,
+        start: usize,
     ) -> Self {
         Self {
             primed: true,
@@ -188,15 +191,35 @@ impl<'a> GreedyRepeatIterator<'a> {
             iterators,
             positions,
             bound,
+            start,
         }
     }
+
+    // enough repetitions; or one of them consumed nothing, and so stands for
+    // any number of (equally empty) repetitions at that point
+    fn satisfied(&self) -> bool {
+        self.positions.len() >= self.min || has_empty_step(self.start, &self.positions)
+    }
+}
+
+// does the path start -> positions[0] -> positions[1] ... contain a step that
+// consumed nothing
+fn has_empty_step(start: usize, positions: &[usize]) -> bool {
+    let mut previous = start;
+    for p in positions {
+        if *p == previous {
+            return true;
+        }
+        previous = *p;
+    }
+    false
 }
 
 impl Iterator for GreedyRepeatIterator<'_> {
     type Item = usize;
 
     fn next(&mut self) -> Option<Self::Item> {
-        let has_next = if self.primed && self.iterators.len() >= self.min {
+        let has_next = if self.primed && self.satisfied() {
             !self.iterators.is_empty()
         } else if self.iterators.is_empty() {
             false
@@ -220,7 +243,7 @@ impl Iterator for GreedyRepeatIterator<'_> {
                     self.iterators.pop();
                     self.positions.pop();
                 }
-                if self.iterators.len() >= self.min || self.iterators.is_empty() {
+                if self.satisfied() || self.iterators.is_empty() {
                     break;
                 }
             }
@@ -292,12 +315,13 @@ impl Iterator for ReluctantRepeatIterator<'_> {
             let top = self.iterators.last_mut()?;
             if let Some(p) = top.next() {
                 self.positions.truncate(depth - 1);
-                // an iteration that consumed nothing is not repeated once the
-                // minimum is reached: further repetitions could add nothing
+                // an iteration that consumed nothing stands for any number of
+                // repetitions, so it lifts the minimum and is not itself repeated
                 let previous = self.positions.last().copied().unwrap_or(self.position);
-                self.descend = p != previous || depth < self.min;
+                let had_empty = has_empty_step(self.position, &self.positions);
+                self.descend = p != previous || (depth < self.min && !had_empty);
                 self.positions.push(p);
-                if depth >= self.min {
+                if depth >= self.min || had_empty || p == previous {
                     return Some(p);
                 }
             } else {
